@@ -7,6 +7,7 @@ import (
 	ipfslog "berty.tech/go-ipfs-log"
 	"berty.tech/go-orbit-db/iface"
 	"berty.tech/go-orbit-db/stores/operation"
+	"berty.tech/go-orbit-db/verifhook"
 )
 
 type documentIndex struct {
@@ -49,6 +50,7 @@ func (i *documentIndex) Get(key string) interface{} {
 
 func (i *documentIndex) UpdateIndex(oplog ipfslog.Log, _ []ipfslog.Entry) error {
 	entries := oplog.Values().Slice()
+	verifhook.Point("index.update.walked", i, oplog)
 	size := len(entries)
 
 	handled := map[string]struct{}{}
